@@ -512,6 +512,14 @@ pub const SITES: &[&str] = &[
     "cluster.is_word",
     "cluster.is_space",
     "cluster.convert_repetitions",
+    "format.alternation",
+    "format.character_class",
+    "format.concatenation",
+    "format.literal",
+    "format.repetition",
+    "regexp.display",
+    "grapheme.escape_non_ascii",
+    "grapheme.escape_regexp_symbols",
 ];
 
 pub const POLICIES: &[&str] = &["random", "round-robin", "run-to-completion", "pct"];
